@@ -1684,6 +1684,17 @@ impl PeerConnection {
             return Ok(());
         }
 
+        // Store the description before the DTLS role is published and ICE is started below:
+        // both wake the state task, and on a fast path (loopback, candidates already gathered)
+        // start_dtls runs before this function returns. It decides from the stored descriptions
+        // whether SCTP is needed; an answerer has no local description yet, so with the store
+        // at the end SCTP was silently never started although both ends reported Connected.
+        // (An error return below restores the previous description through the undo guard.)
+        {
+            let mut remote = self.inner.remote_description.lock();
+            *remote = Some(desc.clone());
+        }
+
         {
             let current_role = *self.inner.dtls_role.borrow();
             if current_role.is_none() {
@@ -2157,11 +2168,6 @@ impl PeerConnection {
                     }
                 }
             }
-        }
-
-        {
-            let mut remote = self.inner.remote_description.lock();
-            *remote = Some(desc.clone());
         }
 
         if self.config().transport_mode == TransportMode::Rtp {
